@@ -50,7 +50,9 @@ pub fn csv_expressions_first_guarded()
 pub fn ws_expr_pos_p() -> impl Parser<StringView, Output = ExpressionPos, Error = ParserError> {
     // an opening parenthesis may follow directly, but it only starts the expression:
     // NOT(0) = 5 is NOT ((0) = 5)
-    super::parenthesis::parser()
+    // (only the parenthesis itself is looked at: parsing the whole parenthesised operand
+    // here and again as part of the expression doubles the work at every nesting level)
+    left_paren()
         .peek()
         .and_keep_right(expression_pos_p())
         .or(lead_ws(expression_pos_p()))
